@@ -236,10 +236,12 @@ def real_mean_rate(model, l, r):
 
 def _real_stream(res, rng, viol, scale):
     from rpylib.distribution.samplingfactory import create_q_vector
-    from rpylib.grid.spatial import CTMCUniformGrid, CTMCGridGeometric
+    from rpylib.grid.spatial import CTMCUniformGrid, CTMCGridGeometric, CTMCGridProbabilityStep
     from stepmeasure import real_model_specs, build_model
     for rep_i in range(scale):
-        for spec in real_model_specs(rng):
+        # CGMY with y exactly 1 has infinite variation (Blumenthal-Getoor index 1): the central cell's variance must be added
+        extra = [{"family": "CGMY", "kwargs": dict(c=rng.uniform(0.02, 0.2), g=rng.uniform(8, 20), m=rng.uniform(8, 25), y=1.0)}]
+        for spec in real_model_specs(rng) + extra:
             for exponential in (False, True):
                 fam = spec["family"]
                 try:
@@ -248,14 +250,18 @@ def _real_stream(res, rng, viol, scale):
                     res.notes.append(f"{fam}: model constructor raised {type(e).__name__}")
                     continue
                 h = rng.choice([0.02, 0.05])
-                for gname in ("uniform", "geometric"):
+                gnames = ["uniform", "geometric"]
+                if fam in ("HEM", "MERTON", "VG") and rep_i == 0 and not exponential:
+                    gnames.append("probstep")      # compute_mu_h must use the grid's own middle there
+                for gname in gnames:
                     try:
                         grid = (CTMCUniformGrid(h=h, model=model) if gname == "uniform"
-                                else CTMCGridGeometric(h=h, model=model, nb_of_points_on_each_side=rng.randrange(3, 12)))
+                                else CTMCGridGeometric(h=h, model=model, nb_of_points_on_each_side=rng.randrange(3, 12)) if gname == "geometric"
+                                else CTMCGridProbabilityStep(h=0.05, model=model, minimum_probability_step=0.1))
                     except ValueError:
                         res.bump("real_grid_ValueError", f"{fam}/{gname}")
                         continue
-                    lv = rng.choice([0, 1])
+                    lv = rng.choice([0, 1]) if gname != "probstep" else 0
                     for _ in range(lv):
                         grid.refine()
                     ctx = dict(kind="real", model=spec, exponential=exponential, grid=gname, h=float(grid.h), levels=lv,
@@ -278,6 +284,21 @@ def _real_stream(res, rng, viol, scale):
                     if abs(got - want) > 1e-7 * (1 + abs(want)):
                         viol("process drift + rate-weighted states differs from the mean of the truncated process (real model, quadrature of x nu(x))",
                              got=got, want=want, declared=model.levy_triplet.representation.name, **ctx)
+                    # variance: infinite variation (decided independently: CGMY y >= 1) adds the central cell's second moment
+                    iv = fam == "CGMY" and spec["kwargs"]["y"] >= 1.0
+                    hh = float(grid.h)
+                    sig = float(model.diffusion_coefficient())
+                    want2 = sig ** 2
+                    if iv:
+                        nu0 = model.levy_triplet.nu
+                        import scipy.integrate
+                        f2 = lambda x: x * x * float(nu0(x))
+                        want2 += scipy.integrate.quad(f2, max(-hh / 2, -1.0), 0.0, limit=400)[0] + scipy.integrate.quad(f2, 0.0, min(hh / 2, 1.0), limit=400)[0]
+                    got2 = float(p.equivalent_diffusion_coefficient) ** 2
+                    res.bump("variance_case", "infinite variation" if iv else "finite variation")
+                    if abs(got2 - want2) > 1e-6 * max(want2, 1e-12):
+                        viol("equivalent_diffusion_coefficient**2 differs from sigma^2 (+ central-cell second moment for infinite variation) (real model)",
+                             got=got2, want=want2, **ctx)
 
 
 def _copula_margins(res, rng, viol):
